@@ -487,8 +487,25 @@ pub fn gen_case_c01(rng: &mut Rng, trace: bool) -> Value {
     let mut routes = routes;
     let mut probes: Vec<Value> = (0..4).map(|_| gen_probe(rng)).collect();
     match rng.below(6) { 0 | 1 => header_focus(rng, &mut routes, &mut probes), 2 | 3 => trigger_focus(rng, &mut routes, &mut probes, trace), _ => {} }
+    let mut cfg = gen_cfg(rng);
+    if trace && rng.chance(1, 5) {
+        // C17 focus: (a) sibling marker rules of one radix node that BOTH accept a probe; (b) a static rule written with a
+        // query string, probed (raw, see run_case) with the parameters in another order, every ignore flag off
+        let bare = |id: &str, path: Value| json!({"id": id, "rank": 0, "scheme": null, "host": null, "methods": null, "excl": null, "headers": [], "ips": null, "dt": null, "time": null, "wd": null, "path": path});
+        let k = routes.len();
+        if k >= 2 && rng.chance(1, 2) {
+            routes[0] = bare("r0", json!({"t": "/blog/@m", "m": [["m", "[0-9]+"]]}));
+            routes[1] = bare("r1", json!({"t": "/blog/@m", "m": [["m", *rng.pick(&[".+", "[0-9a-z]+", "[^(]+"])]]}));
+            probes[0]["path"] = json!("/blog/42");
+        } else {
+            routes[0] = bare("r0", json!({"s": "/x?a=1&b=2"}));
+            probes[0]["path"] = json!("/x?a=1&b=2");
+            cfg = json!({"ic_host": false, "ic_path": false, "ic_header": false, "always": rng.chance(1, 2), "imqp": false});
+        }
+        for key in ["host", "scheme", "method"] { probes[0][key] = Value::Null; }
+    }
     // observe only at the end: keep a single observation by making every op but the last invisible is not possible, so observe all
-    json!({"cfg": gen_cfg(rng), "routes": routes, "ops": ops, "probes": probes, "trace": trace})
+    json!({"cfg": cfg, "routes": routes, "ops": ops, "probes": probes, "trace": trace})
 }
 
 /// C02: histories with re-insertion after removal, absent ids, change sets moving a rule to another bucket, clones, cache
